@@ -172,6 +172,12 @@ func mkSchedBody(c *lib.Ctx, threads []string, pre int) func() vsync.Body {
 					if r.NumDNS > want {
 						return fmt.Sprintf("overcount-after-reset: %d > %d", r.NumDNS, want)
 					}
+					// Only the updates that run concurrently with the reset may be left:
+					// whatever was counted before the threads started is cleared in every
+					// serial order of reset, flush and reads.
+					if r.NumDNS > uint64(nUpd) {
+						return fmt.Sprintf("cleared-data-comes-back: %d updates were counted before the reset began and %d run concurrently with it; after the reset the API reports %d", pre, nUpd, r.NumDNS)
+					}
 				} else if closed && nUpd > 0 && r.NumDNS != want && r.NumDNS != uint64(pre) {
 					// An update racing with the shutdown may be refused (statistics already
 					// closed); the earlier ones must survive.
